@@ -299,8 +299,8 @@ func runC06(r *rt.Run) {
 	// large documents, as they are
 	large := docgen.LargeDocs()
 	r.Bounds["large_documents"] = len(large)
-	large = append(append(large, docgen.NumberDocs()...), docgen.MemberDocs()...)
-	r.Bounds["number_spelling_and_member_text_documents"] = len(large) - r.Bounds["large_documents"].(int)
+	large = append(large, docgen.ExtraDocs()...)
+	r.Bounds["number_spelling_member_text_and_string_alphabet_documents"] = len(large) - r.Bounds["large_documents"].(int)
 	r.ParFor(len(large), func(i int, w *rt.Worker) {
 		w.States++
 		w.Nontriv++
